@@ -254,6 +254,26 @@ theorem ws_evict : ∀ (r : Req) (x : Inter M r), WS r x → WS r (evict r x)
     ⟨supp_trim (supp_mapVals hx.1 _) size after,
       vals_restrict (WS sub) _ (vals_mapVals (WS sub) (evict sub) (ws_evict sub) hx.2)⟩
 
+theorem ws_harvest : ∀ (r : Req) (x : Inter M r), WS r x → WS r (harvest r x)
+  | .none, _, _ => trivial
+  | .both a b, x, hx => ⟨ws_harvest a x.1 hx.1, ws_harvest b x.2 hx.2⟩
+  | .metric _ _, _, _ => trivial
+  | .terms p sub, x, hx => by
+    have hs : Supp (termsCut p x).map := termsCut_supp p x hx.1
+    have hv : ∀ k e, (termsCut p x).map.get k = some e → WS sub e.2 := by
+      by_cases hl : x.map.entries.length ≤ p.segSize
+      · rw [termsCut_small p x hl]; exact hx.2
+      · rw [termsCut_big p x hl]; exact vals_restrict (WS sub) _ hx.2
+    exact ⟨supp_mapVals hs _, vals_mapVals (WS sub) (harvest sub) (ws_harvest sub) hv⟩
+  | .hist _ sub, x, hx =>
+    ⟨supp_mapVals hx.1 _, vals_mapVals (WS sub) (harvest sub) (ws_harvest sub) hx.2⟩
+  | .range _ _ sub, x, hx =>
+    ⟨supp_mapVals hx.1 _, vals_mapVals (WS sub) (harvest sub) (ws_harvest sub) hx.2⟩
+  | .filter _ _ sub, x, hx => ws_harvest sub x.2 hx
+  | .topHits _ _ _ _, _, _ => trivial
+  | .composite _ _ _ sub, x, hx =>
+    ⟨supp_mapVals hx.1 _, vals_mapVals (WS sub) (harvest sub) (ws_harvest sub) hx.2⟩
+
 end ws
 
 /-! ### the observational theorem -/
@@ -410,6 +430,21 @@ theorem evict_invisible (r : Req) (parts : List (List Doc)) :
   rw [merge_empty, merge_empty, List.map_map] at h
   rw [← fold_parts (merge r) (empty r) (merge_assoc r) (merge_comm r) (empty_merge r)
       (collect r) (collect_nil r) (collect_append r) parts]
+  exact h
+
+/-- **eviction is invisible on top of ANY terms truncation**: the complete segment model (terms cut
+and composite eviction) and the cut-only model have the same final result, for every request tree
+and every partition — no guard -/
+theorem full_eq_cut (r : Req) (parts : List (List Doc)) :
+    finalize r ((parts.map (collectSegFull (M := M) r)).foldl (merge r) (empty r))
+      = finalize r ((parts.map (collectSeg (M := M) r)).foldl (merge r) (empty r)) := by
+  have h := evict_fold (M := M) r (parts.map (collectSeg r)) (empty r) (empty r)
+    (by
+      intro m hm
+      obtain ⟨q, _, rfl⟩ := List.mem_map.1 hm
+      exact ws_harvest r _ (ws_collect r q))
+    (ws_empty r) (ws_empty r) (fun _ _ => rfl) (empty r) (ws_empty r)
+  rw [merge_empty, merge_empty, List.map_map] at h
   exact h
 
 end obs
